@@ -379,6 +379,47 @@ def _pinned_search(ctx, goal, tries=6, free=2, timeout_ms=3000):
     return found
 
 
+def _cvc5_crosscheck(res, ctx, goal):
+    """Second opinion (thorough tier): export pc & goal as SMT-LIB2 and ask the cvc5 binary.  z3 said unsat;
+    cvc5 answering sat is a solver disagreement (harness error), unknown/timeout is ignored."""
+    import shutil
+    import subprocess
+    import tempfile
+
+    exe = shutil.which("cvc5")
+    if exe is None:
+        return
+    s = z3.Solver()
+    for c in ctx.pc:
+        s.add(c)
+    s.add(goal)
+    cache = os.path.join(os.path.dirname(os.path.dirname(os.path.abspath(__file__))), ".cache")
+    os.makedirs(cache, exist_ok=True)
+    fd, path = tempfile.mkstemp(suffix=".smt2", dir=cache)
+    try:
+        with os.fdopen(fd, "w") as f:
+            f.write("(set-logic ALL)\n" + s.to_smt2())
+        t = time.time()
+        try:
+            r = subprocess.run([exe, "--tlimit=20000", path], capture_output=True, text=True, timeout=40)
+            ans = (r.stdout.strip().splitlines() or ["unknown"])[-1]
+        except subprocess.TimeoutExpired:
+            ans = "unknown"
+        res["cvc5_s"] = res.get("cvc5_s", 0.0) + time.time() - t
+        res["cvc5_checked"] = res.get("cvc5_checked", 0) + 1
+        if ans == "unsat":
+            res["cvc5_agree"] = res.get("cvc5_agree", 0) + 1
+        elif ans == "sat":
+            res["harness_errors"].append("solver disagreement: z3 unsat, cvc5 sat on %s" % _smt(goal))
+        else:
+            res["cvc5_unknown"] = res.get("cvc5_unknown", 0) + 1
+    finally:
+        try:
+            os.remove(path)
+        except OSError:
+            pass
+
+
 def _discharge(res, h, params, ctx, canary, known, replay_dir):
     nontriv = False
     for idx, ob in enumerate(ctx.obs):
@@ -406,6 +447,9 @@ def _discharge(res, h, params, ctx, canary, known, replay_dir):
             if r0 == "unsat":
                 res["discharged"] += 1
                 res["exact_identities"] = res.get("exact_identities", 0) + 1
+                if res["tier"] == "thorough" and not canary and res["exact_identities"] % 7 == 1 \
+                        and res.get("cvc5_checked", 0) < 12:
+                    _cvc5_crosscheck(res, ctx, z3.Not(ob.exact_formula))
                 continue
         for _ in range(4):
             r = None
@@ -417,6 +461,10 @@ def _discharge(res, h, params, ctx, canary, known, replay_dir):
                 r, m = _query(ctx, ob.formula, extra)
             if r == "unsat":
                 res["discharged"] += 1
+                res["solver_discharged"] = res.get("solver_discharged", 0) + 1
+                if res["tier"] == "thorough" and not canary and not extra and res["solver_discharged"] % 5 == 1 \
+                        and res.get("cvc5_checked", 0) < 12:
+                    _cvc5_crosscheck(res, ctx, z3.Not(ob.formula))
                 break
             if r == "unknown":
                 res["inconclusive"].append(ob.name + ": solver unknown")
